@@ -6,6 +6,8 @@
 //! exit:  0 held on everything explored · 1 VIOLATION · 2 inconclusive
 
 mod engine;
+mod keys;
+mod pair;
 mod props;
 mod wire;
 
